@@ -79,4 +79,4 @@ package bed
 //@ func (*Writer).Write
 //@   property C02
 //@   requires w != nil && w.w != nil && f != nil
-//@   ensures [bytes] err == nil ==> n == emitted(w.w) - old(emitted(w.w))
+//@   ensures [bytes] n == emitted(w.w) - old(emitted(w.w))
